@@ -4,7 +4,8 @@ Made for `Guard._evaluate_core_async` (core/engine.py): the method as a whole is
 the statements that turn the raw decision into the returned `Decision`, that build the env, that run the cache protocol and that build
 the audit payload are pure once the collaborators' ANSWERS are given.  A range is designated by `(Class.method, start, last)`: the
 top-level statements of the method body from the ONE statement whose `ast.unparse` text starts with `start` up to and including the ONE
-that starts with `last`.
+that starts with `last`; with `last = None`: the ONE assignment statement that starts with `start`, wherever it is nested (what the
+statement computes from the variables it reads — when it is reached is not part of such a range).
 
 Inputs of a range (Lean parameters, in this order): `o` (the `str()` oracle, when `str(...)` occurs), the EXTERNAL collaborator calls
 the range makes (order of first call), then the variables that may be read before the range assigns them, in order of first read — a
